@@ -245,7 +245,7 @@ def execute(case: dict[str, Any], preempt: dict[int, int], tmpdir: str, ctx: Ctx
     env_layout = "threads:" + layout.split(":")[1] if mixed else layout
     nw = len(case["workers"])
     sched = Scheduler(preempt=preempt, trace_files=conc.target_files(env_layout), record=not preempt, copy_yields=True)
-    with conc.Env(env_layout, tmpdir, sched, nw) as env:
+    with conc.Env(env_layout, tmpdir, sched, nw, pickled=bool(case.get("salt", 0) % 2)) as env:
         s0 = env.setup
         m = ModelStorage()
         sid_of: list[int] = []
@@ -540,7 +540,7 @@ def enum_classic(ctx: Ctx, tier: str, shard: int, nshards: int) -> None:
         ctx.sub = "classic"
         run_scenario(case, ctx)
         ctx.event("classic:" + name)
-    ctx.exhaustive_parts.append("the fifteen classic races on all eleven layouts: every single-preemption schedule on the in-memory / fakeredis layouts (quick tier: 50 / 24 sampled switch points on journal-file / SQLite layouts; thorough tier: all)")
+    ctx.exhaustive_parts.append("the fifteen classic races on all twelve layouts: every single-preemption schedule on the in-memory / fakeredis layouts (quick tier: 50 / 24 sampled switch points on journal-file / SQLite layouts; thorough tier: all)")
 
 
 CHECKS = [
